@@ -408,7 +408,7 @@ def check_events(ctx):
     fcfg = cfg_of(fire.node)
     pe, pd = [a.arg for a in fire.node.args.args[1:3]]
     disp = [n for n in fcfg.real_nodes() if f"self._events[{pe}]({pd})" in n.text()]
-    ok = len(disp) == 1 and [(norm(t), v) for t, v in fcfg.dominating_conditions(disp[0])] == [(f"{pe} in self._events", True)]
+    ok = len(disp) == 1 and cnd.facts(fcfg, disp[0]) == {(f"{pe} in self._events", True)}
     ctx.ob("C18.E1", fire.qualname, ok, "fire dispatches the named event whenever it has been created" if ok else "EventProducer.fire does not call self._events[event](data) under `event in self._events` alone", key="dispatch", where=fire.where)
     ga = repo.method("EventProducer", "__getattr__", inherited=False)
     txt = [norm(s) for s in rules.func_stmts(ga.node)]
